@@ -424,6 +424,10 @@ func gen(seed int64, n int, tier string) []interface{} {
 			in.DI["q.r.Iface"] = d.Pkg + "." + d.Node
 			if r.Intn(2) == 0 {
 				a, b := decl[r.Intn(len(decl))], decl[r.Intn(len(decl))]
+				if r.Intn(2) == 0 {
+					a = d // a chain: the implementation registered for the interface is itself a key (Iface -> a -> b);
+					// a callee is replaced by its registered implementation once, not along the chain
+				}
 				in.DI[a.Pkg+"."+a.Node] = b.Pkg + "." + b.Node
 			}
 		}
